@@ -242,7 +242,7 @@ def cli_check(ctx, hl, dist, cov, only=None):
                 # business of C14 (its overflow, D14, can crash opt_list)
                 dist["cli-skipped-long-list"] = dist.get("cli-skipped-long-list", 0) + 1
                 continue
-        cls, hosts, trunc = cli.query(s.decode("latin1"), timeout=6)
+        cls, hosts, trunc = cli.query(s.decode("latin1"), timeout=20)
         case["pdsh"] = cls
         if m.startswith("ok | "):
             mcls = "ok" if int(m.split(" | ")[1]) > 0 else "nohosts"
